@@ -175,7 +175,7 @@ def run_scope_orders(task):
 def run_async_orders(task):
     """Scripted and AI blocks next to a sync validator: the verdict must not depend on the order in
     which the tokio tasks complete, on the number of cores, or on map iteration order."""
-    variant = task
+    variant, small = task
     from . import c18, c19
     prog = driver.load_program()
     stats = PathStats()
@@ -203,12 +203,19 @@ def run_async_orders(task):
             d = {'name': name.encode()}
             d.update({k.replace('_', '-'): v for k, v in attrs.items()})
             return mk_bwc(prog, mk_block(prog, I, d, (line, 3), (line, 20), (3, 6), (line, 30), (line + 3, 1)))
-        scripts = {65: ('string', tuple(b'm1')), 66: ('nil',), 67: ('string', tuple(b'm2')), 68: ('string', tuple(b'm3'))}
+        # S.lua keeps a counter between calls (two blocks in different files use it): what it reports must not
+        # depend on which block is served first
+        scripts = {65: ('string', tuple(b'm1')), 66: ('nil',), 67: ('string', tuple(b'm2')), 68: ('string', tuple(b'm3')), 83: ('stateful',)}
         if variant == 'failing':
             scripts[66] = ('runtime_error',)
         replies = {72: ('text', tuple(b'no')), 'default': ('text', tuple(b'OK'))}
-        f0 = [blk('l1', 1, check_lua=b'A.lua'), blk('l2', 5, check_lua=b'B.lua'), blk('s1', 9, keep_sorted=b''), blk('a1', 13, check_ai=b'Hcond')]
-        f1 = [blk('l3', 1, check_lua=b'C.lua'), blk('l4', 5, check_lua=b'D.lua', severity=b'warning')]
+        f0 = [blk('l1', 1, check_lua=b'A.lua'), blk('l2', 5, check_lua=b'B.lua'), blk('s1', 9, keep_sorted=b''), blk('a1', 13, check_ai=b'Hcond'),
+              blk('l5', 17, check_lua=b'S.lua')]
+        f1 = [blk('l3', 1, check_lua=b'C.lua'), blk('l4', 5, check_lua=b'D.lua', severity=b'warning'), blk('l6', 9, check_lua=b'S.lua')]
+        if small:        # quick tier: four scripted blocks (24 completion orders) instead of six (720)
+            f0 = [f0[0], f0[1], f0[2], f0[3], f0[4]]
+            f1 = [f1[1], f1[2]]
+            f0 = [f0[1], f0[2], f0[3], f0[4]]
         ctx = mk_context(prog, I, [(b'f0.py', src, f0), (b'd/f1.py', src, f1)])
         c18.install_lua(I, prog, scripts, [])
         c19.install_openai(I, prog, {b'BLOCKWATCH_AI_API_KEY': tuple(b'k'), b'BLOCKWATCH_AI_MODEL': None, b'BLOCKWATCH_AI_API_URL': None}, replies, [])
@@ -223,7 +230,12 @@ def run_async_orders(task):
             return dict(err=True)
         merged = {}
         for k, vs in dec.items():
-            merged[k.decode()] = sorted((bytes(v['code']).decode(), v['start'][0], v['severity'].vname) for v in vs)
+            def msg(v):
+                if bytes(v['code']) != b'check-lua':
+                    return ''
+                mb = c18.lua_error(prog, I, v['data'])
+                return bytes(mb).decode('latin1') if mb is not None and all(isinstance(x, int) for x in mb) else '?'
+            merged[k.decode()] = sorted((bytes(v['code']).decode(), v['start'][0], v['severity'].vname, msg(v)) for v in vs)
         return dict(err=False, merged=merged)
 
     for I, pk, val in explore(prog, models.M, run_path, stats=stats, max_paths=20000):
@@ -246,16 +258,17 @@ def confirm_async(binary, v):
     from . import c19
     variant = v['scenario'][1]
     body0 = ''
-    for name, attr in (('l1', 'check-lua="A.lua"'), ('l2', 'check-lua="B.lua"'), ('s1', 'keep-sorted'), ('a1', 'check-ai="Hcond"')):
+    for name, attr in (('l1', 'check-lua="A.lua"'), ('l2', 'check-lua="B.lua"'), ('s1', 'keep-sorted'), ('a1', 'check-ai="Hcond"'), ('l5', 'check-lua="S.lua"')):
         body0 += '# <block name="%s" %s>\nb\na\n# </block>\n' % (name, attr)
     body1 = ''
-    for name, attr in (('l3', 'check-lua="C.lua"'), ('l4', 'check-lua="D.lua" severity="warning"')):
+    for name, attr in (('l3', 'check-lua="C.lua"'), ('l4', 'check-lua="D.lua" severity="warning"'), ('l6', 'check-lua="S.lua"')):
         body1 += '# <block name="%s" %s>\nb\na\n# </block>\n' % (name, attr)
     files = {'f0.py': body0.encode(), 'd/f1.py': body1.encode()}
     for nm, ret in (('A', '"m1"'), ('B', 'nil'), ('C', '"m2"'), ('D', '"m3"')):
         files[nm + '.lua'] = ('function validate(ctx, content)\n  return %s\nend\n' % ret).encode()
     if variant == 'failing':
         files['B.lua'] = b'function validate(ctx, content)\n  error("boom")\nend\n'
+    files['S.lua'] = b'local n = 0\nfunction validate(ctx, content)\n  n = n + 1\n  return "call" .. n .. " in " .. ctx.file\nend\n'
     outs = {}
     with c19.FakeEndpoint([dict(cond='Hcond', reply=('text', 'no'))], default=('text', 'OK')) as ep:
         env = {'BLOCKWATCH_AI_API_KEY': 'k', 'BLOCKWATCH_AI_API_URL': 'http://127.0.0.1:%d/v1' % ep.port}
@@ -277,7 +290,7 @@ def confirm_async(binary, v):
                 diags = {}
                 if r['stderr'].strip().startswith('{'):
                     try:
-                        diags = {k: sorted(x.get('code') for x in vs) for k, vs in json.loads(r['stderr']).items()}
+                        diags = {k: sorted((x.get('code'), (x.get('data') or {}).get('lua_error', '')) for x in vs) for k, vs in json.loads(r['stderr']).items()}
                     except ValueError:
                         pass
                 outs.setdefault(json.dumps([r['code'], diags], sort_keys=True), []).append(pin or 'all cores')
@@ -322,7 +335,7 @@ def main(tier):
         agg.add(r)
         if 'task' in r and rs:
             groups.setdefault('scope', []).append((r['task'], rs))
-    ares = pmap(run_async_orders, ['healthy', 'failing'])
+    ares = pmap(run_async_orders, [('healthy', tier == 'quick'), ('failing', tier == 'quick')])
     for r in ares:
         rs = r.pop('results', [])
         agg.add(r)
